@@ -4,6 +4,9 @@
  'functions': ['timer_manager_basic::plan(tim)', 'timer_manager_basic::plan(tim,start,interval)', 'timer_manager_basic::exec', 'timer_manager_basic::empty',
                'timer_manager_basic::minimal_interval', 'timer_head_basic::is_planned', 'timer_head_basic::unplan'],
  'extract': ['units/C01/cxx_dlist_extract.py', 'units/C16/manager_extract.py'],
+ 'native_cxx_probes': [{'file': 'units/C16/native/manager_sched_probe.cpp', 'run': True, 'sources': ['igris/container/dlist.cpp'],
+                       'what': 'real igris::timer_manager (not the extraction) against a reference scheduler',
+                       'bound': '3 timers, starts {0,3}, intervals {2,5,7}, all 10^4 sequences of 4 operations out of plan/unplan/exec(+0,+1,+4,+11), two callback behaviours: 480000 histories'}],
  'unwind': 5, 'params': {'OP': [0, 1, 2], 'NT': [2]}, 'params_thorough': {'NT': [2, 3]},
  'clauses': 'unplan() of any timer from outside the manager [OP 2]: pending set, empty() and minimal_interval() follow; plan() [OP 0] / plan(tim,start,interval) [OP 1] of a new or an already planned timer (whose parameters may have changed) from every sorted pending list of <= 3 timers: scheduler clauses of C16 on the real (extracted) timer_manager, bounded: after every plan() the pending list is sorted by deadline and holds exactly the planned timers; '
             'during exec(now) a callback never runs before its deadline, callbacks run in non-decreasing deadline order, each firing of a timer is at exactly its previous deadline + interval '
